@@ -53,6 +53,42 @@ theorem gauss_integrates_polynomials : ∀ p ∈ Gen.accepted, ∃ r, Gen.rule p
   refine ⟨r, hr, fun terms ht => exact_polyN hs.exact terms (fun c hc => ?_)⟩
   exact ⟨(ht c hc).1, fun e he => by have := (ht c hc).2 e he; omega⟩
 
+/-- **d = 2, one object**: for every polynomial `P` of per-variable degree `≤ 2(order+1)−1` (given by its
+terms), the rule applied to `P` is the iterated integral of `P` over the square — on `[-1,1]²` for `gauss`
+and on `[0,1]²` for `gauss_reference_cell`. -/
+theorem gauss_exact_polynomials_2d : ∀ p ∈ Gen.accepted, p.1 = 2 → ∃ r, Gen.rule 2 p.2 = .ok r ∧
+    ∀ terms : List (ℝ × List ℕ), (∀ c ∈ terms, c.2.length = 2 ∧ ∀ e ∈ c.2, e ≤ 2 * p.2 + 1) →
+      (r.real.map fun pw => pw.2 * polyEval terms pw.1).sum
+          = ∫ x in (-1 : ℝ)..1, ∫ y in (-1 : ℝ)..1, polyEval terms [x, y] ∧
+      (r.toUnitCell.real.map fun pw => pw.2 * polyEval terms pw.1).sum
+          = ∫ x in (0 : ℝ)..1, ∫ y in (0 : ℝ)..1, polyEval terms [x, y] := by
+  intro p hp h2
+  obtain ⟨d, o⟩ := p
+  simp only at h2; subst h2
+  obtain ⟨r, hr, hs, hu⟩ := checkTable_sound (table_obligations (2, o) hp)
+  refine ⟨r, hr, fun terms ht => ?_⟩
+  have hdeg : ∀ c ∈ terms, c.2.length = 2 ∧ ∀ e ∈ c.2, e ≤ 2 * (o + 1) - 1 :=
+    fun c hc => ⟨(ht c hc).1, fun e he => by have := (ht c hc).2 e he; omega⟩
+  rw [integral_polyEval_2d terms (fun c hc => (ht c hc).1), integral_polyEval_2d terms (fun c hc => (ht c hc).1)]
+  exact ⟨exact_polyN hs.exact terms hdeg, exact_polyN hu.exact terms hdeg⟩
+
+/-- **d = 3, one object** -/
+theorem gauss_exact_polynomials_3d : ∀ p ∈ Gen.accepted, p.1 = 3 → ∃ r, Gen.rule 3 p.2 = .ok r ∧
+    ∀ terms : List (ℝ × List ℕ), (∀ c ∈ terms, c.2.length = 3 ∧ ∀ e ∈ c.2, e ≤ 2 * p.2 + 1) →
+      (r.real.map fun pw => pw.2 * polyEval terms pw.1).sum
+          = ∫ x in (-1 : ℝ)..1, ∫ y in (-1 : ℝ)..1, ∫ z in (-1 : ℝ)..1, polyEval terms [x, y, z] ∧
+      (r.toUnitCell.real.map fun pw => pw.2 * polyEval terms pw.1).sum
+          = ∫ x in (0 : ℝ)..1, ∫ y in (0 : ℝ)..1, ∫ z in (0 : ℝ)..1, polyEval terms [x, y, z] := by
+  intro p hp h3
+  obtain ⟨d, o⟩ := p
+  simp only at h3; subst h3
+  obtain ⟨r, hr, hs, hu⟩ := checkTable_sound (table_obligations (3, o) hp)
+  refine ⟨r, hr, fun terms ht => ?_⟩
+  have hdeg : ∀ c ∈ terms, c.2.length = 3 ∧ ∀ e ∈ c.2, e ≤ 2 * (o + 1) - 1 :=
+    fun c hc => ⟨(ht c hc).1, fun e he => by have := (ht c hc).2 e he; omega⟩
+  rw [integral_polyEval_3d terms (fun c hc => (ht c hc).1), integral_polyEval_3d terms (fun c hc => (ht c hc).1)]
+  exact ⟨exact_polyN hs.exact terms hdeg, exact_polyN hu.exact terms hdeg⟩
+
 /-- the product of 1-D integrals used above is the iterated integral of the monomial (2-D, 3-D) -/
 theorem monomial_integral_2d (i j : ℕ) :
     ∫ x in (-1 : ℝ)..1, ∫ y in (-1 : ℝ)..1, x ^ i * y ^ j
